@@ -71,4 +71,19 @@ example : unmarshal [100, 49,58,97, 108, 105,45,53,101, 51,58,1,2,3, 101, 49,58,
     = .ok (.dict [([97], .list [.int (-5), .str [1,2,3]]), ([98], .dict [])]) := by
   rfl
 
+/-- **Streams**: the encodings of any values written back to back (followed by anything) are read back
+as exactly those values, in order, leaving exactly what followed -/
+theorem C19_stream (vs : List BVal) (hwf : ∀ v ∈ vs, WF v) (rest : Bytes)
+    (hsz : ((vs.map enc).flatten ++ rest).length < 2^63) :
+    decStream vs.length ((vs.map enc).flatten ++ rest) = (vs, rest) := by
+  induction vs with
+  | nil => rfl
+  | cons v tl ih =>
+    simp only [List.map_cons, List.flatten_cons, List.append_assoc, List.length_cons] at hsz ⊢
+    have h := (C19_roundtrip v ((tl.map enc).flatten ++ rest) (hwf v (by simp)) hsz).1
+    simp only [decStream, h]
+    have htl : ((tl.map enc).flatten ++ rest).length < 2^63 := by
+      simp only [List.length_append] at hsz ⊢; omega
+    rw [ih (fun x hx => hwf x (by simp [hx])) htl]
+
 end Bencode
